@@ -700,16 +700,17 @@ class UGen(SynthObject, aob.AbstractObject):
         return self * (180. / bi.pi)
 
     def blend(self, other, frac=0.5):
-        if self.rate == 'demand' or gpp.ugen_param(other).rate == 'demand':
+        other_rate = gpp.ugen_param(other)._as_ugen_rate()
+        if self.rate == 'demand' or other_rate == 'demand':
             raise NotImplementedError('blend is not implemented for dr ugens')
         else:
-            pan = bi.linlin(frac, 0.0, 1.0, -1.0, 1.0)
+            pos = bi.linlin(frac, 0.0, 1.0, -1.0, 1.0)  # Not pan, the module.
             if self.rate == 'audio':
-                return pan.XFade2.ar(self, other, pan)
-            if gpp.ugen_param(other).rate == 'audio':
-                return pan.XFade2.ar(other, self, -pan)
+                return pan.XFade2.ar(self, other, pos)
+            if other_rate == 'audio':
+                return pan.XFade2.ar(other, self, -pos)
             selector = pan.LinXFade2._method_selector_for_rate(self.rate)
-            return getattr(pan.LinXFade2, selector)(self, other, pan)
+            return getattr(pan.LinXFade2, selector)(self, other, pos)
 
     def min_nyquist(self):
         return bi.min(self, ifu.SampleRate.ir * 0.5)
